@@ -30,7 +30,9 @@ func toX(r ref.Regs) (x struct {
 	return
 }
 
-func newMachine() *rig.Machine {
+func newMachine() *rig.Machine { return newMachineOpts(rig.Opts{}) }
+
+func newMachineOpts(o rig.Opts) *rig.Machine {
 	rom := rig.BlankROM(0x00, 0, 0)
 	rig.Put(rom, 0x40, 0x0c, 0xd9) // INC C; RETI
 	rig.Put(rom, 0x48, 0x14, 0xc9) // INC D; RET
@@ -38,7 +40,7 @@ func newMachine() *rig.Machine {
 	rig.Put(rom, 0x58, 0x00, 0xc9) // NOP; RET
 	rig.Put(rom, 0x60, 0x2c, 0xd9) // INC L; RETI
 	rig.Put(rom, 0x100, 0x00, 0xc3, 0x50, 0x01)
-	m := rig.MustNew(rom, rig.Opts{})
+	m := rig.MustNew(rom, o)
 	m.Quiet()
 	m.Mem.Write(0xff07, 0x00)
 	m.Mem.Write(0xff26, 0x00)
@@ -61,7 +63,16 @@ func run(c *rig.Ctx) {
 	pendKinds := []uint8{0x00, 0x01, 0x02, 0x04, 0x08, 0x10, 0x05, 0x1f}
 	reps := int(c.N(1, 12))
 	var idleCycles, wakeDisp, wakes, bugs int64
+	mTrace := newMachineOpts(rig.Opts{DebugCPU: true})
+	mPlain := m
 	c.Part("halt", int64(len(follow))*2*int64(len(pendKinds)), func(i int64, r *rig.Rng) {
+		// every third case on a machine with the CPU trace option on
+		m := mPlain
+		if i%3 == 2 {
+			m = mTrace
+			defer rig.QuietStdout()()
+			c.Count("halt_cases_with_cpu_trace", 1)
+		}
 		fol := follow[i/int64(2*len(pendKinds))]
 		k := int(i % int64(2*len(pendKinds)))
 		ime := k&1 != 0
